@@ -1226,6 +1226,10 @@ func (d *Data) handleMutationsRange(ctx *datastore.VersionedCtx, w http.Response
 		return
 	}
 
+	if len(parts) < 6 {
+		server.BadRequest(w, r, "expect beginning and end of the range to follow 'mutations-range' endpoint")
+		return
+	}
 	rangefmt := queryStrings.Get("rangefmt")
 	switch rangefmt {
 	default:
